@@ -471,10 +471,10 @@ func gen(g *zv.Gen) {
 		}
 		ca, sa := "-", "-"
 		if r.Chance(50) {
-			ca = showList(subset(r, []uint16{1, 2, 3}, 3))
+			ca = showList(subset(r, []uint16{1, 2, 3, 4}, 4))
 		}
 		if r.Chance(60) {
-			sa = showList(subset(r, []uint16{1, 2, 3, 4}, 3))
+			sa = showList(subset(r, []uint16{1, 2, 3, 4}, 4))
 		}
 		sr := "n"
 		if r.Chance(8) {
